@@ -631,7 +631,7 @@ def kindOf (name : String) : Kind :=
            "ParticleVelocitiesInit", "PersonalBestParticlesInit", "PersonalBestParticlesUpdate", "GlobalBestParticleUpdate",
            "ChemicalReactionInit", "AsPheromoneUpdate", "MinMaxPheromoneUpdate", "StepsWithoutImprovementUpdate",
            "RandomRange", "Noop"].contains name then .keep
-  else if ["RandomSpread", "RandomPermutation", "RandomBitstring"].contains name then .pushNew
+  else if ["RandomSpread", "RandomPermutation", "RandomBitstring", "Empty"].contains name then .pushNew
   else if ["All", "Tournament", "FullyRandom", "RandomWithoutRepetition", "RouletteWheel", "StochasticUniversalSampling",
            "LinearRank", "ExponentialRank", "CloneSingle", "DeterministicFitnessProportional", "DERand", "DEBest",
            "DECurrentToBest"].contains name then .copy
